@@ -103,7 +103,8 @@ def err_class(ex: BaseException) -> str:
 #: operations that cannot change the projected state (the previous projection is reused)
 READ_OPS = {"read_status", "load", "lookup", "read_retries", "get_result", "get_exception", "blocking_scan",
             "scan_pending", "scan_running", "body_enter", "body_exit", "yielded", "poll_start", "poll_end",
-            "run_end", "accepted", "recovery_start", "recovery_end", "quiescent", "upsert"}
+            "run_end", "accepted", "recovery_start", "recovery_end", "quiescent", "upsert",
+            "settle_start", "stop_start", "stop_end", "crash"}
 
 
 class Recorder:
